@@ -75,6 +75,9 @@ def compare_values(t, exp_vals, got, where, raw_ts=False):
         return []
     if t == 'ts':
         pairs = ts_pairs(exp_vals)
+        if raw_ts and not pairs and len(got) == 0:
+            # an empty result has no values to represent; its container type is not asserted here (see C14)
+            return []
         if raw_ts:
             try:
                 gp = raw_ts_pairs(got)
@@ -255,3 +258,46 @@ def open_fds(under):
         if target.startswith(under):
             out[int(name)] = target
     return out
+
+
+def compare_scalars(t, exp_vals, got, idxs, where, raw_ts=False):
+    """Compare a list of scalars (from iteration / integer indexing) with expected values.
+    idxs: positions in the expected data the scalars correspond to (None = all, in order)."""
+    if t is None:
+        return [] if len(got) == 0 else ['%s: %d values from a channel without data type' % (where, len(got))]
+    if t == 'str':
+        exp = list(exp_vals)
+    elif t == 'ts':
+        exp = ts_pairs(exp_vals)
+    else:
+        sz = tsize(t)
+        exp = [bytes(exp_vals[i * sz:(i + 1) * sz]) for i in range(len(exp_vals) // sz)]
+    if idxs is not None:
+        exp = [exp[i] for i in idxs]
+    if len(got) != len(exp):
+        return ['%s: %d values, expected %d' % (where, len(got), len(exp))]
+    want = np_dtype(t) if t not in ('str', 'ts') else None
+    for k, (g, e) in enumerate(zip(got, exp)):
+        if t == 'str':
+            if not (isinstance(g, str) and g == e):
+                return ['%s[%d]: %r, expected %r' % (where, k, g, e)]
+        elif t == 'ts':
+            sec, frac = e
+            if raw_ts:
+                if not (getattr(g, 'seconds', None) == sec and getattr(g, 'second_fractions', None) == frac):
+                    return ['%s[%d]: %r, expected TdmsTimestamp(%d, %d)' % (where, k, g, sec, frac)]
+            else:
+                if not isinstance(g, np.datetime64):
+                    return ['%s[%d]: %r is not a datetime64' % (where, k, type(g))]
+                m = check_dt64_us_within_one([e], np.array([g], dtype='<M8[us]'), '%s[%d]' % (where, k))
+                if np.datetime_data(g.dtype)[0] != 'us':
+                    return ['%s[%d]: datetime unit %s, expected us' % (where, k, np.datetime_data(g.dtype)[0])]
+                if m:
+                    return m
+        else:
+            a = np.asarray(g)
+            if a.shape != () or not dtype_eq(a.dtype, want):
+                return ['%s[%d]: scalar of dtype %s shape %s, expected %s' % (where, k, a.dtype, a.shape, want)]
+            if le_bytes(a) != e:
+                return ['%s[%d]: %s, expected bytes %s' % (where, k, le_bytes(a).hex(), e.hex())]
+    return []
